@@ -69,5 +69,5 @@ Decode ==
     /\ QRound("f64", QAdd(Q1, QMul(Q3, QPow2(-53)))) = "3ff0000000000002"  \* tie -> even (up)
     /\ QRound("f64", QAdd(Q1, QAdd(QPow2(-53), QPow2(-200)))) = "3ff0000000000001"
     /\ QRound("i32", "-7/2") = "-3" /\ QRound("i64", "7/2") = "3"
-    /\ QPow2(0) = "1" /\ QPow2(-2) = "1/4" /\ QPow2(70) = "1180591620717411303424"
+    /\ QPow2(0) = "1" /\ QPow2(-2) = "1/4" /\ QPow2(70) = "#400000000000000000/1" /\ QMul(QPow2(70), QPow2(-70)) = "1"
 =============================================================================
